@@ -290,6 +290,14 @@ class NetGen:
                     )
                     di += 1
             if is_valid_desc(desc):
+                # turn rates given as fractions copied from a table with five decimals: they add up to
+                # almost, not exactly, one
+                for n in nodes:
+                    if len(outs[n]) >= 2 and r.random() < 0.12:
+                        ws = [r.uniform(0.2, 1.0) for _ in outs[n]]
+                        tot = sum(ws)
+                        for l_, w_ in zip(outs[n], ws):
+                            l_["beta"] = math.floor(w_ / tot * 1e5) / 1e5
                 return shape_, desc
         raise RuntimeError("network generation failed")
 
@@ -595,6 +603,29 @@ def all_valid_small(nmax, rng, kinds_full=True):
                         desc["dests"].append({"id": f"D{i}", "name": f"D{i}", "node": f"n{v}", "kind": kind})
                 assert is_valid_desc(desc), desc
                 yield desc
+
+
+def add_user_kinds(desc, rng, p_origin=0.7, p_link=0.5):
+    """Some elements become user-defined kinds (vf/userkinds.py): ideal origins prescribe a boundary flow
+    and/or speed; plain links cap their segment flows and/or return their results in another key order.
+    Returns the number of elements changed (the description is modified in place)."""
+    k = 0
+    for o in desc["origins"]:
+        if o["kind"] == "ideal" and rng.random() < p_origin:
+            o["user"] = True
+            o["user_q"] = round(rng.uniform(200.0, 3500.0), 1) if rng.random() < 0.7 else None
+            o["user_v"] = round(rng.uniform(15.0, 115.0), 2) if rng.random() < 0.7 else None
+            if o["user_q"] is None and o["user_v"] is None:
+                o["user_v"] = 60.0
+            k += 1
+    for l in desc["links"]:
+        if l.get("vsl") is None and rng.random() < p_link:
+            l["user_cap"] = round(l["lam"] * rng.uniform(600.0, 2600.0), 1) if rng.random() < 0.7 else None
+            l["user_reorder"] = rng.random() < 0.6
+            if l["user_cap"] is None and not l["user_reorder"]:
+                l["user_reorder"] = True
+            k += 1
+    return k
 
 
 RAMP_VARIANTS = (("ramp", "in"), ("ramp", "out"), ("simple", "limited"), ("simple", "unlimited"))
